@@ -171,7 +171,7 @@ type opndKind struct {
 
 var c07Operands = []opndKind{
 	{"r8", "CL", false}, {"r16", "DX", false}, {"r32", "EBX", false}, {"acc8", "AL", false}, {"acc16", "AX", false}, {"acc32", "EAX", false}, {"sreg", "ES", false}, {"creg", "CR0", false},
-	{"imm-small", "5", false}, {"imm-large", "0x12345", false}, {"string", "\"ab\"", false},
+	{"imm-small", "5", false}, {"imm-mid", "0x3f8", false}, {"imm-large", "0x12345", false}, {"string", "\"ab\"", false},
 	{"mem", "[BX]", false}, {"mem8", "BYTE [SI+4]", false}, {"mem32", "DWORD [EBX+8]", false},
 	{"label", "deflabel", false}, {"equ", "DEFEQU", false}, {"undef-label", "nolabel", true}, {"undef-mem", "[nowhere]", true}, {"undef-expr", "NOEQU+1", true}, {"far", "8:0x10", false},
 }
@@ -267,7 +267,7 @@ func genC07(env *Env, r *Rand, full bool) []Case {
 				// a port / interrupt number is an 8-bit field, not a value taken modulo something
 				if (mn == "IN" || mn == "OUT" || mn == "INT") && expect == "unknown" {
 					for _, o := range sh {
-						if o.Name == "imm-large" {
+						if o.Name == "imm-large" || o.Name == "imm-mid" {
 							expect = "invalid"
 						}
 					}
